@@ -272,6 +272,22 @@ class Verifier(Engine):
         self.store(node.target, v, st)
         return self._flush(st) + [("normal", st, None)]
 
+    def s_Delete(self, node, st):
+        # `del x[a:]` is `x = x[:a]`; `del x[a:b]` is `x = x[:a] + x[b:]` (sequences; a, b evaluated once, pure)
+        outs = []
+        for t in node.targets:
+            if not (isinstance(t, ast.Subscript) and isinstance(t.slice, ast.Slice) and t.slice.step is None
+                    and t.slice.lower is not None):
+                raise GenerationError(f"del of {ast.unparse(t)} in {self.c.qualname}")
+            x, lo = ast.unparse(t.value), ast.unparse(t.slice.lower)
+            rhs = f"{x}[:{lo}]" if t.slice.upper is None else f"{x}[:{lo}] + {x}[{ast.unparse(t.slice.upper)}:]"
+            fake = ast.parse(f"{x} = {rhs}").body[0]
+            ast.copy_location(fake, node)
+            for n in ast.walk(fake):
+                ast.copy_location(n, node)
+            outs += self.s_Assign(fake, st)
+        return outs
+
     def s_If(self, node, st):
         c = truthy(self, self.eval(node.test, st))
         outs = self._flush(st)
@@ -477,7 +493,9 @@ class Verifier(Engine):
         eff = self.effects
         q = self.c.qualname
         lo, hi = node.lineno, getattr(node, "end_lineno", node.lineno)
-        writes, dyn = eff.block_writes(q, lo, hi, calls_only=isinstance(node, ast.Call))
+        hints = {".".join(path): ty.cls for path, ty in self.field_types.items() if isinstance(ty, TObj)}
+        eff.receiver_classes = {tuple(k.rsplit("::", 1)): v for k, v in self.c.ghost.get("receiver_classes", {}).items()}
+        writes, dyn = eff.block_writes(q, lo, hi, calls_only=isinstance(node, ast.Call), recv_hints=hints)
         guarded = self.guarded_fields()
         offending = []
         for f, wcls, path, where in writes:
@@ -799,6 +817,8 @@ class Verifier(Engine):
                 elif callable(how) and hasattr(how, "modifies"):
                     for p in how.modifies:
                         paths.add(tuple(p.split(".")))
+                    # ghost variables (contract parameters) the call model itself re-binds
+                    names |= set(getattr(how, "modifies_names", ()))
                 elif isinstance(n.func, ast.Attribute) and n.func.attr in MUTATORS:
                     target(n.func.value)
         return names, paths
@@ -876,7 +896,21 @@ class Verifier(Engine):
                 variant0 = pyops._int(self, self.eval(ast.parse(spec.variant, mode="eval").body, body_st, True))
                 self.oblige(f"{tag}.variant_nonneg", body_st, Ge(variant0, IntVal(0)), self.func.where(node))
         body_st.trace.append(f"loop{k} body")
+        head_env = {n: v for n, v in head.env.items() if isinstance(v, V)}
+        head_heap = {p: v for p, v in head.heap.items() if isinstance(v, V)}
         for kind, s2, v in self.exec_block(node.body, body_st):
+            # a name or field the body re-binds without having been made arbitrary at the loop head would keep
+            # its pre-loop value in the induction hypothesis: that is a hole in the contract, not a proof
+            for n, v0 in head_env.items():
+                v1 = s2.env.get(n)
+                if isinstance(v1, V) and v1.t.s != v0.t.s and n not in names:
+                    raise GenerationError(f"loop #{k} of {c.qualname} changes `{n}` through a call model that does not "
+                                          f"declare it (modifies_names)")
+            for pth, v0 in head_heap.items():
+                v1 = s2.heap.get(pth)
+                if isinstance(v1, V) and v1.t.s != v0.t.s and pth not in paths:
+                    raise GenerationError(f"loop #{k} of {c.qualname} changes `{'.'.join(pth)}` through a call model that "
+                                          f"does not declare it (modifies)")
             if kind in ("normal", "continue"):
                 for g, (gty, ginit, gstep) in spec.ghost.items():
                     s2.env[g] = coerce(self, self.eval(ast.parse(gstep, mode="eval").body, s2, True), gty)
